@@ -81,3 +81,39 @@ m("C17-commit-finally", ["C17", "C05"], "utils/db.py",
 m("C17-cache-not-reset", ["C17"], "utils/db.py",
   "        except Exception as exc:\n            raise exc\n",
   "        except Exception as exc:\n            self = ScratchDB(self.wrapped_db)\n            raise exc\n")
+
+# ---- C03 ------------------------------------------------------------------------------
+m("C03-proof-ext", ["C03"], "hexary.py",
+  "            else:\n                return updated_proof\n        elif node_type == NODE_TYPE_BRANCH:",
+  "            else:\n                return last_proof\n        elif node_type == NODE_TYPE_BRANCH:")
+m("C03-proof-branch-end", ["C03"], "hexary.py",
+  "            if not unproven_key:\n                return updated_proof",
+  "            if not unproven_key:\n                return updated_proof if node[-1] else last_proof")
+m("C03-swallow", ["C03"], "hexary.py",
+  '                raise BadTrieProof(\n                    f"Missing proof node with hash {e.missing_node_hash}"\n                )',
+  "                return b''")
+m("C03-ignoreroot", ["C03"], "hexary.py",
+  "        with trie.at_root(root_hash) as proven_snapshot:",
+  "        with trie.at_root(trie._set_raw_node(proof[0]) if proof else root_hash) as proven_snapshot:")
+m("C03-extra-nodes", ["C03"], "hexary.py",
+  "        elif node_type == NODE_TYPE_LEAF:\n            return updated_proof\n        elif node_type == NODE_TYPE_EXTENSION:\n            current_key = extract_key(node)\n            if key_starts_with(unproven_key, current_key):",
+  "        elif node_type == NODE_TYPE_LEAF:\n            return updated_proof\n        elif node_type == NODE_TYPE_EXTENSION:\n            current_key = extract_key(node)\n            if key_starts_with(unproven_key, current_key) or len(unproven_key) < len(current_key):")
+
+# ---- C05 ------------------------------------------------------------------------------
+m("C05-root-inside-with", ["C05"], "hexary.py",
+  "            yield memory_trie\n\n        if self.is_pruning:\n            # The batch was committed",
+  "            try:\n                yield memory_trie\n            finally:\n                self.root_hash = memory_trie.root_hash\n\n        if self.is_pruning:\n            # The batch was committed")
+m("C05-dodeletes-inverted", ["C05", "C04", "C06"], "hexary.py",
+  "scratch_db.batch_commit(do_deletes=self.is_pruning)",
+  "scratch_db.batch_commit(do_deletes=not self.is_pruning)")
+m("C05-nonpruning-batch", ["C05"], "hexary.py",
+  "                scratch_db, self.root_hash, prune=True, ref_count=batch_ref_count\n",
+  "                scratch_db, self.root_hash, prune=self.is_pruning, ref_count=batch_ref_count\n")
+m("C05-counts-adopted-early", ["C05", "C06"], "hexary.py",
+  "            yield memory_trie\n\n        if self.is_pruning:\n            # The batch was committed, so adopt its reference counts\n            self._ref_count.clear()\n            self._ref_count.update(batch_ref_count)\n",
+  "            try:\n                yield memory_trie\n            finally:\n                if self.is_pruning:\n                    self._ref_count.clear()\n                    self._ref_count.update(batch_ref_count)\n")
+# Equivalent mutants (documented, not run): no listed property can observe them.
+EQUIVALENT = [
+    ("C05-commit-order-reversed", "utils/db.py: commit loop iterates reversed(cache.items()) - the outer root "
+     "is adopted only after every write, so a failing write at any position leaves the same observable state"),
+]
